@@ -118,6 +118,12 @@ P_C19 == [][StepHolds(ByProp.C19)]_vars
 (* sanity: the core never produces a negative balance *)
 NoNegative == \A x \in Accts : \A d \in Denoms : st.bal[x][d] >= 0
 
+(* transition coverage: in an exhaustive run (VIEW without hist) every distinct state keeps the    *)
+(* input sequence of its first discovery, so printing hist' for every state-changing transition *)
+(* yields one input sequence per transition of the explored instance; they are replayed on the  *)
+(* real code ("one implementation test per transition of the model")                            *)
+EmitT == (KeepHist /\ st' # st) => PrintT("TRACE " \o ToJson(<<InitAct>> \o hist'))
+
 (* generators: write the input history of every behaviour of length GenDepth *)
 EmitHist ==
   (KeepHist /\ Len(hist) > 0 /\ (Len(hist) = GenDepth \/ \A k \in AllKinds : Inputs(k, st, ghost) = {})) =>
